@@ -2,7 +2,7 @@ SPECIFICATION Spec
 CONSTANTS
   Mode = "model"
   Hashes = {"aa11", "aa22", "bb11"}
-  PrefixSet = {"", "p", "p/q"}
+  PrefixSet = {"", "p", "p/q", "p/", "a//b", "./a"}
   SuffixSet = {"S", "0aZ"}
   MaxUsize = 5
   MaxCsize = 3
